@@ -17,12 +17,13 @@ def run(chk):
     cases = name_cases(states, chk.seed, reps=2 if chk.tier == 'quick' else 6)
     recs = core.run_driver('beam', tier=chk.tier, seed=chk.seed, cases=cases)
     chk.validate('names', 'Trace_Beam', 'Trace_Beam.cfg', recs, driver='beam', jobs=8)
-    good = [r for r in recs if r['name'] == 'rank1_gev+mvdr_souden+ban'][0]
+    goods = [r for r in recs if r['name'] == 'rank1_gev+mvdr_souden+ban']
+    good = goods[0]
 
     def corrupt(r):
         r['d_direct'] = r['d_direct'][::-1]
         return r
-    core.binding_demo(chk, 'bind-name', 'Trace_Beam', 'Trace_Beam.cfg', good, corrupt, 'identical')
+    core.binding_demo(chk, 'bind-name', 'Trace_Beam', 'Trace_Beam.cfg', good, corrupt, 'identical', candidates=goods[1:])
     recs = core.run_driver('beam', tier=chk.tier, seed=chk.seed, args=dict(prop='C13'))
     chk.validate('helpers', 'Trace_Beam', 'Trace_Beam.cfg', recs, driver='beam', jobs=14)
     chk.assumptions = ['bit-identity is decided on digests of the complex128 result arrays',
